@@ -117,7 +117,7 @@ def run_driver(pid, rel, o, res):
         if p.returncode != 0:
             return False, "driver build failed: " + p.stdout.decode()[-800:]
         wrapper = ent.get("wrapper", {}).get(labs[0].split('.')[0] + '.' + labs[0].split('.')[1] if '.' in labs[0] else labs[0], [])
-        p = subprocess.run(wrapper + [exe, wit, labs[0]], stdout=subprocess.PIPE, stderr=subprocess.STDOUT, timeout=600)
+        p = subprocess.run(wrapper + [exe, wit, labs[0], spec.cname], stdout=subprocess.PIPE, stderr=subprocess.STDOUT, timeout=600)
         out = p.stdout.decode()[-2000:]
         # driver protocol: exit 3 = clause violated natively (confirmed); 0 = clause holds natively; other = could not construct
         if p.returncode == 3:
